@@ -66,6 +66,14 @@ pub fn run(f: &[&str]) -> String {
     let text = unhex(f[2]);
     crate::catch(move || {
         let mut out = String::new();
+        {
+            use exmex::{MakeOperators, MatchLiteral};
+            let ops = SymOps::make();
+            match exmex::verif::tokenize::<Sym, _>(&text, &ops, NumberMatcher::is_literal, false) {
+                Ok(toks) => out.push_str(&format!("toksimpl={}\t", crate::k_lex::show_tokens(&toks))),
+                Err(_) => out.push_str("toksimpl=E\t"),
+            }
+        }
         match F::parse_wo_compile(&text) {
             Err(_) => {
                 out.push_str("wo=E");
